@@ -20,6 +20,7 @@ func sameParam(fc *FC, v ssa.Value, idx int) bool {
 func propC04(a *Analysis, r *Registry) {
 	b := NewB(a, r)
 	X := b.X
+	X.NoInline["mathx.BetaInc"] = true // its own formula is decided under C08 (imported)
 	const rB = "B-C04 formula"
 	const rG = "C-guard error-returns"
 	tt := func(fname string, names []string, lets [][2]string, specs map[string]string, guards [][2]string, swap bool) {
@@ -87,24 +88,15 @@ func propC04(a *Analysis, r *Registry) {
 			} else {
 				b.EqRF(rB, fname+"/diff-len", where, at.Args[0], env.MustParse("len(x1)"), "len(diff) = len(x1)")
 			}
-			// element store diff[i] = x1[i]-x2[i]
-			n := 0
-			fc.Ctx.Instrs(func(in ssa.Instruction) {
-				st, ok := in.(*ssa.Store)
-				if !ok {
-					return
-				}
-				ia, ok := st.Addr.(*ssa.IndexAddr)
-				if !ok || !fc.Val(ia.X).Equal(diff) {
-					return
-				}
-				n++
+			// element definition diff[i] = x1[i]-x2[i], over every index
+			defs, why := fc.ElementDefs(diff)
+			if len(defs) != 1 {
+				b.R.Fail(rB, fname+"/diff[i]", where, "expected one per-element definition of the difference slice: "+why)
+			} else {
 				e2 := X.EnvFor(fn, "x1", "x2", "mu0", "alt")
-				e2.Set("i", fc.Val(ia.Index), nil)
-				b.Eq(rB, fname+"/diff[i]", a.W.InstrPos(st), fc.Val(st.Val), e2, "x1[i]-x2[i]")
-			})
-			if n != 1 {
-				b.R.Fail(rB, fname+"/diff[i]", where, "expected exactly one element store into the difference slice")
+				e2.Set("i", defs[0].Index, nil)
+				b.Eq(rB, fname+"/diff[i]", defs[0].Where, defs[0].Value, e2, "x1[i]-x2[i]")
+				b.FullScan("C-scan coverage", fname+"/diff-visits-all", defs[0].Where, defs[0].FC, defs[0].Index, env.MustParse("len(x1)"))
 			}
 			env.Set("sd", fc.Val(sd), nil)
 			env.Set("mean", fc.Val(mn), nil)
@@ -165,7 +157,7 @@ func propC04(a *Analysis, r *Registry) {
 			b.guard(rB, construct, func() {
 				env := X.EnvFor(fn, "n1", "n2", "t", "dof", "alt")
 				fc := X.Under(fn, X.AssumeEq(env.Vars["alt"].RF, env.MustParse(al.val)))
-				b.Eq(rB, construct, b.pos(fn), fc.LitField("TTestResult", "P"), env, al.spec)
+				b.EqUnder(rB, construct, b.pos(fn), fc, fc.LitField("TTestResult", "P"), env, al.spec)
 			})
 		}
 		b.guard(rB, "stats.newTTestResult/fields", func() {
